@@ -193,8 +193,57 @@ let run_lin infile outfile =
       | _ -> ()) (read_lines infile);
   close_out oc
 
+(* ---- steporder: the statements of the Ready case in the order the model executes them ---- *)
+let step_name = function
+  | SSaveSnap -> "saveSnap" | SWalSave -> "wal.Save" | SApplySnap -> "ApplySnapshot"
+  | SAppend -> "raftStorage.Append" | SSend -> "transport.Send" | SPublish -> "publishEntries"
+  | STrigger -> "maybeTriggerSnapshot" | SAdvance -> "Node.Advance"
+
+let run_steporder outfile =
+  let oc = open_out_bin outfile in
+  List.iter (fun s -> output_string oc (step_name s ^ "\n")) step_order;
+  close_out oc
+
+(* ---- recover: C08.  Input:
+     SNAPCOUNT <n>
+     E c <idhex> <arghex>*  |  E e  |  E f        (log entries from index 1; one Ready per entry)
+     END
+   The model runs the Readys (every command acknowledged), then the process is killed and
+   restarted.  Output:
+     BEFORE up|down snap=<index|-> acked=<n>
+     AFTER up|down snap=<index|-> keys=<sorted hex keys of the recovered keyspace>  *)
+let run_recover infile outfile =
+  let oc = open_out_bin outfile in
+  let sc = ref N0 and pl = ref [] in
+  let env1 = [((Z0, Z0), RNil)] in
+  let snap_str d = match d.d_snap with Some i -> string_of_int (int_of_n i) | None -> "-" in
+  let updown n = match n with Up (_, _) -> "up" | Down (_, _) -> "down" in
+  List.iter (fun l ->
+      match split_ws l with
+      | ["SNAPCOUNT"; n] -> sc := n_of_int (int_of_string n); pl := []
+      | "E" :: "c" :: id :: args -> pl := PCmd (unhx id, List.map unhx args) :: !pl
+      | ["E"; "e"] -> pl := PEmpty :: !pl
+      | ["E"; "f"] -> pl := PConf :: !pl
+      | ["END"] ->
+        let log = number_log (n_of_int 1) (List.rev !pl) in
+        let rds = List.map (fun e -> ({ r_entries = [e]; r_commit = e.eidx; r_committed = [e] }, env1)) log in
+        let start = Up ({ d_wal = []; d_commit = N0; d_snap = None },
+                        { v_applied = N0; v_snapidx = N0; v_ks = empty_db; v_acked = [] }) in
+        let n1 = run_readys !sc rds start in
+        Printf.fprintf oc "BEFORE %s snap=%s acked=%d\n" (updown n1) (snap_str (durable_of n1)) (List.length (acked_of n1));
+        let envs = List.map (fun _ -> ((Z0, Z0), RNil)) log in
+        let n2 = restart !sc envs (durable_of (crash n1)) in
+        let keys = (match keyspace_of n2 with
+            | Some ks -> String.concat "," (List.sort compare (List.map (fun (k, _) -> hx k) ks.kv))
+            | None -> "") in
+        Printf.fprintf oc "AFTER %s snap=%s keys=%s\n" (updown n2) (snap_str (durable_of n2)) keys
+      | _ -> ()) (read_lines infile);
+  close_out oc
+
 let () =
   match Array.to_list Sys.argv with
+  | [_; "steporder"; o] -> run_steporder o
+  | [_; "recover"; i; o] -> run_recover i o
   | [_; "lin"; i; o] -> run_lin i o
   | [_; "enc"; i; o] -> run_enc i o
   | [_; "entries"; i; o] -> run_entries i o
